@@ -387,3 +387,118 @@ def r8(ctx, R):
 def r9(ctx, R):
     from . import c03
     c03.r1b(ctx, R)
+
+
+_KRYLOV = {'cg', 'gmres', 'bicgstab', 'bicg', 'minres', 'lgmres', 'cgs', 'qmr', 'gcrotmk', 'tfqmr'}
+_LINSOLVE = _KRYLOV | {'spsolve', 'solve', 'lu_solve', 'inv'}
+
+
+def _derived_from(fn, seed):
+    """names that (flow-insensitively) carry data of `seed`: an over-approximation, so the rule can only under-report"""
+    d = {seed}
+    changed = True
+    while changed:
+        changed = False
+        for s in ast.walk(fn):
+            if isinstance(s, ast.Assign):
+                tg, val = s.targets, s.value
+            elif isinstance(s, (ast.AugAssign, ast.AnnAssign)) and s.value is not None:
+                tg, val = [s.target], s.value
+            else:
+                continue
+            if any(isinstance(n, ast.Name) and n.id in d for n in ast.walk(val)):
+                for t in tg:
+                    for n in ast.walk(t):
+                        if isinstance(n, ast.Name) and n.id not in d:
+                            d.add(n.id)
+                            changed = True
+    return d
+
+
+def _kw_of_call(fn, c):
+    """explicit keywords of a call plus the literal keys of a `**name` argument whose dict literal is assigned in the same function"""
+    kw = {k.arg: k.value for k in c.keywords if k.arg}
+    for k in c.keywords:
+        if k.arg is None and isinstance(k.value, ast.Name):
+            for s in ast.walk(fn):
+                if isinstance(s, ast.Assign) and any(isinstance(t, ast.Name) and t.id == k.value.id for t in s.targets) and isinstance(s.value, ast.Dict):
+                    for kk, vv in zip(s.value.keys, s.value.values):
+                        if isinstance(kk, ast.Constant) and isinstance(kk.value, str):
+                            kw.setdefault(kk.value, vv)
+    return kw
+
+
+_R10_CONTROL = '''
+class P:
+    def solve_system(self, rhs, factor, u0, t):
+        sol = self.u_init
+        sol[:] = cg(self.Id - factor * self.A, rhs.flatten(), rtol=self.lintol)[0]
+        return sol
+'''
+
+
+def _r10_scan(cls_name, fn):
+    """-> list of (kind, lineno, callee, ok, detail) for one solve_system* function"""
+    out = []
+    d = _derived_from(fn, 'u0')
+    par = {}
+    for n in ast.walk(fn):
+        for c in ast.iter_child_nodes(n):
+            par[c] = n
+    mentions = lambda e: e is not None and any(isinstance(m, ast.Name) and m.id in d for m in ast.walk(e))
+    loops_with_solve = []
+    for c in ast.walk(fn):
+        if not isinstance(c, ast.Call):
+            continue
+        name = c.func.attr if isinstance(c.func, ast.Attribute) else getattr(c.func, 'id', None)
+        if name not in _LINSOLVE:
+            continue
+        p, loop = c, None
+        while p in par:
+            p = par[p]
+            if isinstance(p, (ast.While, ast.For)):
+                loop = p
+        if loop is not None:
+            if loop not in loops_with_solve:
+                loops_with_solve.append(loop)
+            ok = any(mentions(a) for a in c.args)
+            out.append(('newton-inner', c.lineno, name, ok, 'the system solved inside the iteration is assembled from the iterate, and the iterate starts at u0'))
+        elif name in _KRYLOV:
+            kw = _kw_of_call(fn, c)
+            ok = mentions(kw.get('x0'))
+            out.append(('krylov', c.lineno, name, ok, f"x0={ast.unparse(kw['x0']) if 'x0' in kw else 'absent'}"))
+    if loops_with_solve:
+        rets = [r for r in ast.walk(fn) if isinstance(r, ast.Return) and r.value is not None]
+        ok = bool(rets) and all(mentions(r.value) for r in rets)
+        out.append(('newton-return', fn.lineno, 'return', ok, 'every returned value carries data of u0'))
+    return out
+
+
+@rule('C10', 'C10.R10', "the initial guess reaches the solver: in every problem class, an iterative linear solve of solve_system (CG, GMRES, BiCGStab, ..) starts from the caller's u0 (x0=..u0..) and a Newton-type iteration around a linear solve iterates on data initialised from u0 - at the FAS fixed point the sweeper passes the solution itself as u0, and a solver that starts elsewhere returns it only to within its tolerance, not up to rounding", floor=30)
+def r10(ctx, R):
+    repo = ctx.repo
+    # embedded positive control: a CG call without x0 must be recognised on every run
+    ctl = ast.parse(_R10_CONTROL).body[0].body[0]
+    got = _r10_scan('P', ctl)
+    if [g[:4] for g in got] != [('krylov', got[0][1], 'cg', False)]:
+        raise AnalysisError('C10.R10: the embedded control (CG without x0) is not recognised')
+    n = 0
+    for m, ci, fn in repo.all_functions():
+        if ci is None or not m.relpath.startswith('pySDC/implementations/problem_classes/') or not fn.name.startswith('solve_system'):
+            continue
+        if 'u0' not in [a.arg for a in fn.args.args]:
+            continue
+        w = f'{m.relpath}:{ci.name}.{fn.name}'
+        res = _r10_scan(ci.name, fn)
+        if res:
+            R.fn(w)
+        for kind, line, callee, ok, detail in res:
+            n += 1
+            if kind == 'krylov':
+                R.check(ok, f'{ci.name}.{fn.name} :: {callee}(..) outside a Newton loop starts from the initial guess u0', w, 'x0=<expression carrying u0>', detail)
+            elif kind == 'newton-inner':
+                R.check(ok, f'{ci.name}.{fn.name} :: {callee}(..) inside the iteration works on data carrying u0', w, detail, 'no argument of the call depends on u0')
+            else:
+                R.check(ok, f'{ci.name}.{fn.name} :: the iteration returns data carrying u0', w, detail, 'a returned value does not depend on u0')
+    if n < 30:
+        raise AnalysisError(f'C10.R10: only {n} solver sites found in the problem classes')
